@@ -36,6 +36,7 @@ def run_property(prop: str, tier: str, root: str | None = None) -> int:
             if hasattr(mod, "run_thorough"):
                 mod.run_thorough(prog, rep)
             thorough.selftest_obligations(prop, rep, prog.root)
+            thorough.fuzz_obligations(prop, rep, prog.root)
             thorough.mypy_second_witness(rep, prog.root)
         seed = int(os.environ.get("VERIF_SEED", "0") or 0)
         return rep.finish(seed)
